@@ -705,12 +705,16 @@ class Interp(seq_detached.DetachedMixin, S.SeqRun):
                 rel_mids[ra.name] = tgt.mid
         return self._create(te, kw, rel_mids, {}, via=(mo.mid, sa))
 
-    def pending_prelude(self, mo, r):
+    def pending_prelude(self, mo, r, lean=False):
         """Leave an unflushed change pending right before a compound call (obj.set(...), delete()) on mo: every
         live object is fetched first, so that no query (auto-flush) comes between the pending change and the
-        call.  False when mo did not survive."""
-        for o in self.live_sorted():
-            self.handle_or_poison(o.mid)
+        call.  False when mo did not survive.  `lean`: only mo is fetched beforehand (the objects a change needs
+        are fetched by that change before it is made), so that mo's collections stay as unloaded as they were."""
+        if lean:
+            self.handle_or_poison(mo.mid)
+        else:
+            for o in self.live_sorted():
+                self.handle_or_poison(o.mid)
         k = r.below(8)
         touched = None
         members = [(sa, m) for sa in self.schema.by_name[mo.ent].sets() if not sa.reverse.is_set
@@ -762,8 +766,11 @@ class Interp(seq_detached.DetachedMixin, S.SeqRun):
         mo = self.pick(a)
         if mo is None:
             return None
-        if c % 3 == 0 and not self.pending_prelude(mo, Rng(0, 'del', a, b, c))[0]:
+        if c % 3 == 0 and not self.pending_prelude(mo, Rng(0, 'del', a, b, c), lean=(c % 2 == 1))[0]:
             return None
+        return self.op_del_of(mo)
+
+    def op_del_of(self, mo):
         desc = 'del %s#%d' % (mo.ent, mo.mid)
         before = dict((o.mid, dict(o.vals)) for o in self.view.live())
 
@@ -797,6 +804,207 @@ class Interp(seq_detached.DetachedMixin, S.SeqRun):
                           '%s was refused (%s) although every dependent in its way cascades or can be unlinked'
                           % (desc, str(res)[:160]))
         return st
+
+    def op_fail_probe(self, a, b, c):
+        """pending change(s) -> a call the rules refuse -> look at everything the call touched.  The refused call
+        is chosen with the model (a delete the cascade rules refuse, preferably one whose cascade gets somewhere
+        before it is refused; None into a required attribute; a unique value that is taken), the pending changes
+        are left unflushed right before it, and afterwards the objects in its reach are asked for by primary key,
+        by attribute and through their collections."""
+        r = Rng(0, 'fail_probe', a, b, c)
+        dels, sets_ = [], []
+        for o in self.live_sorted():
+            v = self.view.clone()
+            v.trace = []
+            try:
+                v.delete(o.mid)
+            except Refuse:
+                # how far does the rule get before it refuses: (object, relationship) pairs in the order visited
+                dels.append((list(v.trace), o))
+        for o in self.live_sorted():
+            e = self.schema.by_name[o.ent]
+            for at in e.scalars():
+                if at.is_pk:
+                    continue
+                if at.required:
+                    sets_.append((o, at, None))
+                elif at.opts.get('unique'):
+                    for o2 in self.view.live(o.ent):
+                        if o2.mid != o.mid and o2.vals.get(at.name) is not None:
+                            sets_.append((o, at, o2.vals[at.name]))
+        if not dels and not sets_:
+            return None
+        use_del = bool(dels) and (not sets_ or r.chance(0.65))
+        if use_del:
+            deep = [d for d in dels if len(d[0]) > 1]
+            pool_ = deep if (deep and r.chance(0.7)) else dels
+            plan, mo = pool_[r.below(len(pool_))]
+        else:
+            mo, at, val = sets_[r.below(len(sets_))]
+        before = set(o.mid for o in self.live_sorted())
+        for _ in range(r.below(3)):
+            if use_del and plan and r.chance(0.7):
+                self.prelude_in_reach(plan, r)
+            else:
+                alive, _t = self.pending_prelude(mo, r, lean=r.chance(0.5))
+                if not alive:
+                    return None
+            if self.view.objs[mo.mid].deleted:
+                return None
+        if use_del:
+            self.probe('fail_probe_delete')
+            st = self.op_del_of(mo)
+        else:
+            self.probe('fail_probe_assignment')
+            desc = 'set %s#%d.%s=%r' % (mo.ent, mo.mid, at.name, val)
+            newvals = dict(mo.vals)
+            newvals[at.name] = val
+            e = self.schema.by_name[mo.ent]
+            dup = self._would_duplicate(e, mo.mid, newvals) if val is not None else None
+
+            def model(v):
+                if val is None:
+                    raise Refuse('None assigned to required %r' % at)
+                v.objs[mo.mid].vals[at.name] = val
+            st = self.modify(desc, lambda: setattr(self.handle(mo.mid), at.name, val), model, must_fail=dup,
+                             mids=[mo.mid])[0]
+        # look around: the target, what it is linked to, and a few others
+        near = [mo.mid]
+        e = self.schema.by_name[mo.ent]
+        for ra in e.attrs:
+            if ra.is_rel:
+                near.extend(sorted(self.view.partners(ra, mo.mid)))
+        near.extend(sorted(before))
+        seen = []
+        for m in near:
+            if m not in seen:
+                seen.append(m)
+        for m in seen[:2 + r.below(4)]:
+            o = self.view.objs[m]
+            if o.deleted:
+                continue
+            if o.pk is not None:
+                self._probe_pk(o)
+            eo = self.schema.by_name[o.ent]
+            if eo.sets() and r.chance(0.7):
+                sa = eo.sets()[r.below(len(eo.sets()))]
+                self._probe_coll(o, sa, r.below(6), r.below(1000))
+            if r.chance(0.5):
+                self.op_r_attr_of(o, eo.attrs[r.below(len(eo.attrs))])
+        return st
+
+    def op_partial(self, a, b, c):
+        """A collection that is only partly in memory when something happens to it: fetch an owner, fetch ONE of
+        its stored members (which puts just that member into the owner's collection), leave a change of that
+        member or of the collection pending, then run a call on the owner that has to take the rest of the
+        collection into account (delete, clear, assignment, a question) - without any query in between.  Most
+        telling as the first operation of a session, when nothing else is loaded."""
+        r = Rng(0, 'partial', a, b, c)
+        cands = []
+        for o in self.live_sorted():
+            if not o.stored:
+                continue
+            for sa in self.schema.by_name[o.ent].sets():
+                ms = [m for m in sorted(self.view.partners(sa, o.mid)) if self.view.objs[m].stored and m != o.mid]
+                if ms:
+                    cands.append((o, sa, ms))
+        if not cands:
+            return None
+        big = [x for x in cands if len(x[2]) >= 2]
+        pool_ = big if (big and r.chance(0.7)) else cands
+        o, sa, ms = pool_[r.below(len(pool_))]
+        self.probe('partial_scenario')
+        if r.chance(0.8):
+            self.handle_or_poison(o.mid)
+        it = ms[0] if r.chance(0.6) else ms[r.below(len(ms))]
+        owners = [x.mid for x in self.live_sorted() if self.schema.by_name[x.ent].sets()]
+        ai, bi = owners.index(o.mid), self.schema.by_name[o.ent].sets().index(sa)
+        k = r.below(10)
+        others = [x.mid for x in self.live_sorted(o.ent) if x.mid != o.mid and x.stored]
+        if k < 4 and not sa.reverse.is_set and others:
+            t = others[r.below(len(others))]
+            self.modify('rel %s#%d.%s=#%d' % (sa.rel, it, sa.reverse.name, t),
+                        lambda: setattr(self.handle(it), sa.reverse.name, self.handle(t)),
+                        lambda v: v.set_to_one(it, sa.reverse, t), mids=[it, t])
+        elif k < 6:
+            self.modify('del %s#%d' % (sa.rel, it), lambda: self.handle(it).delete(), lambda v: v.delete(it), mids=[it])
+        elif k < 9:
+            self.modify('remove %s#%d.%s [#%d]' % (o.ent, o.mid, sa.name, it),
+                        lambda: getattr(self.handle(o.mid), sa.name).remove(self.handle(it)),
+                        lambda v: v.coll_remove(o.mid, sa, [it]), mids=[o.mid, it])
+        else:
+            self.handle_or_poison(it)       # only loaded
+        if self.view.objs[o.mid].deleted:
+            return None
+        j = r.below(10)
+        if j < 4:
+            return self.op_del_of(self.view.objs[o.mid])
+        if j < 6:
+            return self.op_coll('clear' if j == 4 else 'assign', ai, bi, r.below(1000))
+        self._probe_coll(self.view.objs[o.mid], sa, r.below(6), r.below(1000), tag=' [partly loaded, change pending]')
+        if r.chance(0.5):
+            self._probe_coll(self.view.objs[o.mid], sa, r.below(6), r.below(1000), tag=' [again]')
+        return None
+
+    def prelude_in_reach(self, plan, r):
+        """an unflushed change inside the reach of a delete that is going to be refused: in a collection or at an
+        object the cascade visits before the refusal (so that the failed call has to put it back exactly)"""
+        if r.chance(0.6):
+            for o in self.live_sorted():
+                self.handle_or_poison(o.mid)
+        else:
+            self.handle_or_poison(plan[0][0])
+        head = plan[:-1] or plan
+        m, at = head[r.below(len(head))] if r.chance(0.8) else plan[r.below(len(plan))]
+        mo = self.view.objs[m]
+        if mo.deleted:
+            return
+        owners = [o.mid for o in self.live_sorted() if self.schema.by_name[o.ent].sets()]
+        e = self.schema.by_name[mo.ent]
+        k = r.below(10)
+        if k < 2:
+            # a new dependent the cascade will reach: a partner for a cascading one-to-one attribute that is
+            # empty (an explicit primary key, not yet inserted), else a new member of a cascading collection
+            reach = [m] + sorted(self.view.partners(at, m))
+            r.shuffle(reach)
+            for t in reach:
+                et = self.schema.by_name[self.view.objs[t].ent]
+                for ra in et.to_ones():
+                    if ra.cascade and not ra.reverse.is_set and self.view.get_one(ra, t) is None:
+                        te = self.schema.by_name[ra.rel]
+                        self._create(te, self.scalar_kwargs(te, r.below(1000), r.below(1000)), {ra.reverse.name: t}, {})
+                        self.probe('prelude_created_partner_in_reach')
+                        return
+        if at.is_set and m in owners:
+            ai, bi = owners.index(m), e.sets().index(at)
+            if k < 4:
+                self.op_create_in(ai, bi, r.below(1000))
+                self.probe('prelude_created_member_in_reach')
+            elif k < 6 and self.view.partners(at, m):
+                self.op_coll('remove', ai, bi, 1 + 4 * r.below(200))
+                self.probe('prelude_pending_removal_in_reach')
+            elif k < 9 and self.view.partners(at, m) and not at.reverse.is_set:
+                # from the member's side: the first stored member (or any) moves to another owner, or goes
+                members = sorted(self.view.partners(at, m))
+                it = members[0] if r.chance(0.6) else members[r.below(len(members))]
+                others = [o.mid for o in self.live_sorted(mo.ent) if o.mid != m]
+                if k < 8 and others:
+                    t = others[r.below(len(others))]
+                    self.modify('rel %s#%d.%s=#%d' % (at.rel, it, at.reverse.name, t),
+                                lambda: setattr(self.handle(it), at.reverse.name, self.handle(t)),
+                                lambda v: v.set_to_one(it, at.reverse, t), mids=[it, t])
+                    self.probe('prelude_member_moved_in_reach')
+                else:
+                    self.modify('del %s#%d' % (at.rel, it), lambda: self.handle(it).delete(), lambda v: v.delete(it),
+                                mids=[it])
+                    self.probe('prelude_member_deleted_in_reach')
+            else:
+                self.op_coll('add', ai, bi, r.below(1000))
+        else:
+            pm = self.view.get_one(at, m) if not at.is_set else None
+            tgt = self.view.objs.get(pm) if pm is not None else mo
+            idx = [o.mid for o in self.live_sorted()].index(tgt.mid)
+            self.op_set(idx, r.below(1000), r.below(1000))
 
     def op_bulk_del(self, a, b, c):
         """select(...).delete(bulk=True): one DELETE statement, the database's ON DELETE clauses do what
@@ -903,7 +1111,10 @@ class Interp(seq_detached.DetachedMixin, S.SeqRun):
         if mo is None:
             return
         e = self.schema.by_name[mo.ent]
-        at = e.attrs[b % len(e.attrs)]
+        self.op_r_attr_of(mo, e.attrs[b % len(e.attrs)])
+
+    def op_r_attr_of(self, mo, at):
+        e = self.schema.by_name[mo.ent]
         what = 'r_attr %s#%d.%s' % (mo.ent, mo.mid, at.name)
         h = self.handle_or_poison(mo.mid)
         if at.is_set:
@@ -942,7 +1153,9 @@ class Interp(seq_detached.DetachedMixin, S.SeqRun):
         objs = sorted((o for o in self.view.objs.values() if o.pk is not None), key=lambda o: o.mid)
         if not objs:
             return
-        mo = objs[a % len(objs)]
+        self._probe_pk(objs[a % len(objs)])
+
+    def _probe_pk(self, mo):
         e = self.schema.by_name[mo.ent]
         P = self.E[mo.ent]
         what = 'r_pk %s[%r]' % (mo.ent, mo.pk)
@@ -1534,6 +1747,12 @@ class Interp(seq_detached.DetachedMixin, S.SeqRun):
         elif name == 'bulk_del':
             if not self.knobs.get('hook_mode'):
                 self.op_bulk_del(a, b, c)
+        elif name == 'partial':
+            if self.knobs.get('hook_mode') not in ('modify', 'create', 'link', 'after_edit'):
+                self.op_partial(a, b, c)
+        elif name == 'fail_probe':
+            if self.knobs.get('hook_mode') not in ('modify', 'create', 'link', 'after_edit'):
+                self.op_fail_probe(a, b, c)
         elif name == 'flush':
             self.op_flush()
         elif name == 'commit':
